@@ -99,8 +99,10 @@ is_assignable(CPPType *type) {
     return is_assignable(type->as_typedef_type()->_type);
 
   case CPPDeclaration::ST_array:
-    // An array of unknown bound cannot be copied into.
-    return type->as_array_type()->_bounds != nullptr;
+    // An array of unknown bound cannot be copied into, and neither can an
+    // array of const elements.
+    return type->as_array_type()->_bounds != nullptr &&
+           is_assignable(type->as_array_type()->_element_type);
 
   default:
     return true;
